@@ -1,6 +1,7 @@
 import PGV.Spec.Lang
 import PGV.Props.Facts
 import PGV.Proofs.LangEq
+import PGV.Proofs.Size
 import PGV.Proofs.EmailEq
 
 /-!
@@ -67,6 +68,63 @@ theorem C05_idcard (s : Bytes) : Model.Lang.idCardRe s = idcard s := PGV.Proofs.
 single `-`, `+` or `.`; the domain is words joined by single `-` or `.` with at least one `.` — for
 every byte string -/
 theorem C05_email (s : Bytes) : Model.Lang.emailRe s = Spec.Lang.email s := PGV.Proofs.EmailEq.email_eq s
+
+/-! ### verdicts of the registered rule functions on strings
+
+"violated exactly when the value lies outside the language": the function registered under the
+rule name writes a clause for a string `s` iff the independent recogniser of `Spec.Lang` rejects `s`
+— for every rule text (custom message or not), object, field and string. -/
+
+theorem strRule_verdict (text obj field s dflt : Bytes) (p : Bytes → Bool) :
+    ∃ out, strRule text obj field (.str s) (fun s => pure (p s)) dflt = .ok out ∧ (out ≠ [] ↔ p s = false) := by
+  simp only [strRule, checkFieldIsStr, bind, Except.bind, pure, Except.pure]
+  cases h : p s with
+  | true => exact ⟨[], by simp, by simp⟩
+  | false =>
+    simp only [Bool.false_eq_true, if_false]
+    exact ⟨_, rfl, by simp [PGV.Proofs.Size.violClause_ne_nil]⟩
+
+theorem C05_verdict_phone (ext : Ext) (text obj field s : Bytes) :
+    ∃ run, builtin (b! "phone") = some (.fn run) ∧
+      ∃ out, run ext text obj field (.str s) = .ok out ∧ (out ≠ [] ↔ phone s = false) := by
+  refine ⟨_, rfl, ?_⟩
+  rw [← C05_phone]; exact strRule_verdict text obj field s _ _
+
+theorem C05_verdict_email (ext : Ext) (text obj field s : Bytes) :
+    ∃ run, builtin (b! "email") = some (.fn run) ∧
+      ∃ out, run ext text obj field (.str s) = .ok out ∧ (out ≠ [] ↔ Spec.Lang.email s = false) := by
+  refine ⟨_, rfl, ?_⟩
+  rw [← C05_email]; exact strRule_verdict text obj field s _ _
+
+theorem C05_verdict_idcard (ext : Ext) (text obj field s : Bytes) :
+    ∃ run, builtin (b! "idcard") = some (.fn run) ∧
+      ∃ out, run ext text obj field (.str s) = .ok out ∧ (out ≠ [] ↔ idcard s = false) := by
+  refine ⟨_, rfl, ?_⟩
+  rw [← C05_idcard]; exact strRule_verdict text obj field s _ _
+
+theorem C05_verdict_int (ext : Ext) (text obj field s : Bytes) :
+    ∃ run, builtin (b! "int") = some (.fn run) ∧
+      ∃ out, run ext text obj field (.str s) = .ok out ∧ (out ≠ [] ↔ Spec.Lang.int s = false) := by
+  refine ⟨_, rfl, ?_⟩
+  rw [← C05_int]
+  simp only [ruleInt, bind, Except.bind, pure, Except.pure]
+  cases h : Model.Lang.intRe s with
+  | true => exact ⟨[], by simp, by simp⟩
+  | false =>
+    refine ⟨_, by simp; rfl, ?_⟩
+    simp [PGV.Proofs.Size.violClause_ne_nil]
+
+theorem C05_verdict_float (ext : Ext) (text obj field s : Bytes) :
+    ∃ run, builtin (b! "float") = some (.fn run) ∧
+      ∃ out, run ext text obj field (.str s) = .ok out ∧ (out ≠ [] ↔ Spec.Lang.float s = false) := by
+  refine ⟨_, rfl, ?_⟩
+  rw [← C05_float]
+  simp only [ruleFloat, bind, Except.bind, pure, Except.pure]
+  cases h : Model.Lang.floatRe s with
+  | true => exact ⟨[], by simp, by simp⟩
+  | false =>
+    refine ⟨_, by simp; rfl, ?_⟩
+    simp [PGV.Proofs.Size.violClause_ne_nil]
 
 /-! ### the layout builder `GetTimeFmt` -/
 
